@@ -373,18 +373,21 @@ pub fn mutate_struct(d: &mut Draw, file: &[String], donor: &[String], narrow: bo
             ops.push("focus");
         }
     }
-    let n_edits = d.usize_in(1, if narrow { 3 } else { 4 });
-    const NUMS: &[&str] = &[
+    let n_edits = d.usize_in(1, if narrow { 2 } else { 4 });
+    const NUMS_ALL: &[&str] = &[
         "0", "1", "2", "3", "7", "8", "32", "33", "64", "65", "100", "1'b1", "8'hff", "'0", "'1", "'x", "'z", "4'bxz01", "32'hffff_ffff",
         "64'd1", "128'h1", "1.5", "1e3", "4294967296", "18446744073709551615",
     ];
+    // the two giants only in the wide domain (a cast to a huge width is a listed hang)
+    let nums: &[&str] = if narrow { &NUMS_ALL[..NUMS_ALL.len() - 2] } else { NUMS_ALL };
     for _ in 0..n_edits {
         if toks.len() < 4 {
             break;
         }
         let i = d.below_usize(toks.len());
         // weights: ident swap, same-class, rename-decl, delete item, duplicate item, splice own, splice donor, group swap, dir/type edit, number
-        let w: [u32; 10] = if narrow { [5, 4, 3, 4, 2, 2, 2, 2, 3, 2] } else { [5, 4, 3, 4, 2, 3, 4, 3, 3, 2] };
+        // quick tier: no duplication / splices / group swaps (their crash sites keep coming)
+        let w: [u32; 10] = if narrow { [5, 4, 3, 4, 0, 0, 0, 0, 3, 2] } else { [5, 4, 3, 4, 2, 3, 4, 3, 3, 2] };
         match d.weighted(&w) {
             0 => {
                 // identifier swap: an identifier occurrence becomes another identifier of the file
@@ -441,7 +444,7 @@ pub fn mutate_struct(d: &mut Draw, file: &[String], donor: &[String], narrow: bo
                     continue;
                 }
                 let item: Vec<String> = toks[s..e].to_vec();
-                match d.weighted(&[4, 2, 2]) {
+                match d.weighted(if narrow { &[1, 0, 0] } else { &[4, 2, 2] }) {
                     0 => {
                         toks.drain(s..e);
                         ops.push("delete_item");
@@ -510,7 +513,7 @@ pub fn mutate_struct(d: &mut Draw, file: &[String], donor: &[String], narrow: bo
                 let cands: Vec<usize> = (0..toks.len()).filter(|&j| class_of(&toks[j]) == 7).collect();
                 if !cands.is_empty() {
                     let j = cands[d.below_usize(cands.len())];
-                    toks[j] = d.pick(NUMS).to_string();
+                    toks[j] = d.pick(nums).to_string();
                     ops.push("number");
                 }
             }
